@@ -365,3 +365,74 @@ fn upgrade_consensus_case() {
 #[kani::stub(fuel_crypto::Hasher::finalize, hasher_finalize_const)]
 #[kani::stub(fuel_tx::UpgradeMetadata::compute, upgrade_metadata_model)]
 pub fn c35_upgrade_consensus_parameters() { upgrade_consensus_case() }
+
+// ---------------------------------------------------------------------------------------
+// deploy_inner: a contract id can be created only once, with exactly the code and storage slots
+// ---------------------------------------------------------------------------------------
+const CID: ContractId = ContractId::new([0xC1; 32]);
+/// CreateMetadata::compute (code root / state root / contract id formulas: C15's subject) replaced by a
+/// model with a fixed contract id; C35 is about what is stored under `metadata.contract_id`.
+pub(crate) fn create_metadata_model(_tx: &Create) -> Result<fuel_tx::CreateMetadata, ValidityError> {
+    Ok(fuel_tx::CreateMetadata { contract_id: CID, contract_root: Bytes32::zeroed(), state_root: Bytes32::zeroed() })
+}
+
+fn deploy_case<const W: usize>(exists: bool, with_slot: bool) {
+    use crate::storage::ContractsStateKey;
+    let code: B<W> = kani::any();
+    let (sk, sv): ([u8; 32], [u8; 32]) = ([0x51; 32], kani::any());
+    let slots = if with_slot { alloc::vec![fuel_tx::StorageSlot::new(Bytes32::new(sk), Bytes32::new(sv))] } else { Vec::new() };
+    let mut tx = Transaction::create(0, Policies::new(), fuel_types::Salt::zeroed(), slots, Vec::new(), Vec::new(),
+                                     alloc::vec![Witness::from(vec_of(&code))]);
+    tx.precompute(&fuel_types::ChainId::new(0)).unwrap();
+    let mut st = SlotStorage::new();
+    let other = ContractId::new([0xEE; 32]);
+    let other_code: B<1> = kani::any();
+    st.code[0] = Some((other, vec_of(&other_code)));
+    let old_code: B<2> = kani::any();
+    if exists { st.code[1] = Some((CID, vec_of(&old_code))); }
+    let gas_costs = GasCosts::default();
+    let r: Result<(), IErr> = Vm::deploy_inner(&mut tx, &mut st, InitialBalances::default(), &gas_costs,
+                                               &FeeParameters::DEFAULT, &AssetId::zeroed(), 0);
+    let empty: B<0> = B([]);
+    // the unrelated contract is never touched
+    match st.code_get(&other) { Some(c) => assert!(is_concat(c, &empty, &other_code)), None => assert!(false) }
+    if exists {
+        assert!(matches!(r, Err(InterpreterError::Panic(PanicReason::ContractIdAlreadyDeployed))));
+        match st.code_get(&CID) { Some(c) => assert!(is_concat(c, &empty, &old_code)), None => assert!(false) }
+        assert!(st.state_count() == 0, "a refused deployment writes no storage slot");
+        kani::cover!(true, "second deployment of a contract id refused, code unchanged");
+    } else {
+        assert!(r.is_ok());
+        match st.code_get(&CID) { Some(c) => assert!(is_concat(c, &empty, &code)), None => assert!(false, "code must be stored under the metadata contract id") }
+        if with_slot {
+            assert!(st.state_count() == 1);
+            match st.state_get(&ContractsStateKey::new(&CID, &Bytes32::new(sk))) {
+                Some(v) => { let mut ok = v.len() == 32; let mut i = 0; while i < 32 { ok &= v[i] == sv[i]; i += 1; } assert!(ok); }
+                None => assert!(false, "storage slot must be stored under the contract id"),
+            }
+        } else {
+            assert!(st.state_count() == 0);
+        }
+        kani::cover!(true, "contract deployed with its code and slots");
+    }
+    core::mem::forget(st);
+    core::mem::forget(tx);
+}
+
+macro_rules! deploy_harness {
+    ($name:ident, $w:literal, $exists:literal, $slot:literal) => {
+        #[kani::proof]
+        #[kani::unwind(70)]
+        #[kani::stub(core::result::Result::expect, expect_model)]
+        #[kani::stub(core::result::Result::unwrap, unwrap_model)]
+        #[kani::stub(crate::error::Bug::new, crate::error::Bug::verif_new)]
+        #[kani::stub(fuel_crypto::Hasher::hash, toy_hash)]
+        #[kani::stub(fuel_crypto::Hasher::input, hasher_input_noop)]
+        #[kani::stub(fuel_crypto::Hasher::finalize, hasher_finalize_const)]
+        #[kani::stub(fuel_tx::CreateMetadata::compute, create_metadata_model)]
+        pub fn $name() { deploy_case::<$w>($exists, $slot) }
+    };
+}
+deploy_harness!(c35_deploy_new_w3_slot, 3, false, true);
+deploy_harness!(c35_deploy_new_w0, 0, false, false);
+deploy_harness!(c35_deploy_again_w2_slot, 2, true, true);
